@@ -2,6 +2,7 @@
 Decided clauses: R05.1 join protocol, R05.2 exit discipline (drain < flush < drop(stream) on every exit of the
 thread entry), R05.3 uniqueness test not defeated by a live clone, R05.4 exit reachable, R05.5 attach-handle drop."""
 from mq.util import *
+from mq.facts import CallSite
 from mq.prov import Prov, single_def_ref_target
 from mq.sim import pkey
 
@@ -205,10 +206,12 @@ def run(ctx):
                     ctx.check(not late, "R05.2", key + "#nothing-after-shutdown", loc(b, c.bb),
                               "the stream is used after the shutdown routine ran" + (" (bb%d)" % late[0].bb if late else ""))
         # R05.4: exits via the shutdown flag and via the no-appenders test
-        flag_loads = [c for c in b.calls() if c.is_("core::sync::atomic::Atomic::<bool>::load")]
-        uniq = [c for c in b.calls() if c.is_("alloc::sync::Arc::<T, A>::get_mut", "alloc::sync::Arc::<T, A>::into_inner",
-                                              "alloc::sync::Arc::<T, A>::try_unwrap", "alloc::sync::Arc::<T, A>::strong_count",
-                                              "alloc::sync::Arc::<T, A>::is_unique")]
+        # (directly, or inside a private helper called from the loop: a predicate such as `should_shut_down()`)
+        helper_only = lambda pred: [c for c in b.calls() if pred(c) or any(sb.crate == BG and any(pred(x) for x in sb.calls()) for sb in local_callee_bodies(F, c))]
+        flag_loads = helper_only(lambda c: c.is_("core::sync::atomic::Atomic::<bool>::load"))
+        uniq = helper_only(lambda c: c.is_("alloc::sync::Arc::<T, A>::get_mut", "alloc::sync::Arc::<T, A>::into_inner",
+                                           "alloc::sync::Arc::<T, A>::try_unwrap", "alloc::sync::Arc::<T, A>::strong_count",
+                                           "alloc::sync::Arc::<T, A>::is_unique"))
         for what, sites in (("shutdown-flag", flag_loads), ("no-appenders", uniq)):
             exits = 0
             for c in sites:
@@ -247,11 +250,19 @@ def run(ctx):
                             continue
                         o = pr.operand(t["discr"])
                         cmps = [x[1] for x in o if x[0] == "call" and (d.term(x[1]).get("callee") or {}).get("name") in ("ge", "gt", "le", "lt")]
-                        for cb_ in cmps:
+                        # a private bool helper that compares against the clock counts as the deadline test itself
+                        clock_helpers = []
+                        for x in o:
+                            if x[0] == "call":
+                                for hb in local_callee_bodies(F, CallSite(d, x[1], d.term(x[1]))):
+                                    if hb.crate == BG and hb.locals[0]["ty"] == "bool" and any(y.name in ("ge", "gt", "le", "lt") for y in hb.calls()) and \
+                                            any(y.name in ("now", "elapsed") for y in hb.calls()):
+                                        clock_helpers.append(x[1])
+                        for cb_ in cmps + clock_helpers:
                             ao = set()
                             for a in d.term(cb_)["args"]:
                                 ao |= pr.operand(a)
-                            if any(x[0] == "call" and (d.term(x[1]).get("callee") or {}).get("name") in ("now", "elapsed") for x in ao):
+                            if cb_ in clock_helpers or any(x[0] == "call" and (d.term(x[1]).get("callee") or {}).get("name") in ("now", "elapsed") for x in ao):
                                 stops += [tb for v, tb in t["targets"]] + [t["otherwise"]]
                                 stops.remove([tb for v, tb in t["targets"] if v == 0][0]) if any(v == 0 for v, _ in t["targets"]) else None
                     ctx.check(bool(stops) and d.must_pass(stops), "R05.6", fnkey(d) + "#drain-stops-only-when-empty-or-out-of-time", loc(d),
